@@ -815,3 +815,35 @@ fn algebraic_data_types() {
         }
     }
 }
+
+#[test]
+fn applied_trait_or_foreign_type_name() {
+    lowering_error! {
+        program {
+            trait Foo { }
+            struct S { }
+            struct T { f: Foo<S> }
+        }
+        error_msg {
+            "expected a struct, found `Foo`, which is not a struct"
+        }
+    }
+
+    lowering_error! {
+        program {
+            extern type E;
+            struct S { }
+            struct T { f: E<S> }
+        }
+        error_msg {
+            "`E` takes 0 type parameters, not 1"
+        }
+    }
+
+    lowering_success! {
+        program {
+            extern type E;
+            struct T { f: E<> }
+        }
+    }
+}
